@@ -98,6 +98,18 @@ int main ()
     long double e = std::max (std::max (fabsl (s*s + vv - h.s0), fabsl (2*s*x - h.s1)), std::max (fabsl (2*s*y - h.s2), fabsl (2*s*z - h.s3))) / scale;
     bool psd = (s >= 0) && (sqrtl (vv) <= s * (1 + 1e-7L));
     O.put (finite ? 1 : 0); O.put (psd ? 1 : 0); putD (O, (double) e); };
+  // the same at single and extended precision (the determinant clamp must follow the element type)
+  OP("o.c09.sqrtf") { double in[4]; for (int i=0;i<4;i++) in[i] = rdD(A);
+    { Quaternion<float,H> h ((float) in[0], (float) in[1], (float) in[2], (float) in[3]); Quaternion<float,H> r = sqrt(h);
+      bool finite = std::isfinite (r.s0) && std::isfinite (r.s1) && std::isfinite (r.s2) && std::isfinite (r.s3);
+      long double s = r.s0, x = r.s1, y = r.s2, z = r.s3, vv = x*x + y*y + z*z, scale = std::max (fabsl ((long double) h.s0), 1e-30L);
+      long double e = std::max (std::max (fabsl (s*s + vv - h.s0), fabsl (2*s*x - h.s1)), std::max (fabsl (2*s*y - h.s2), fabsl (2*s*z - h.s3))) / scale;
+      O.put (finite ? 1 : 0); O.put ((s >= 0 && sqrtl (vv) <= s * (1 + 1e-3L)) ? 1 : 0); putD (O, (double) e * 1e-7); }
+    { Quaternion<long double,H> h (in[0], in[1], in[2], in[3]); Quaternion<long double,H> r = sqrt(h);
+      bool finite = std::isfinite (r.s0) && std::isfinite (r.s1) && std::isfinite (r.s2) && std::isfinite (r.s3);
+      long double s = r.s0, x = r.s1, y = r.s2, z = r.s3, vv = x*x + y*y + z*z, scale = std::max (fabsl (h.s0), 1e-300L);
+      long double e = std::max (std::max (fabsl (s*s + vv - h.s0), fabsl (2*s*x - h.s1)), std::max (fabsl (2*s*y - h.s2), fabsl (2*s*z - h.s3))) / scale;
+      O.put (finite ? 1 : 0); O.put ((s >= 0 && sqrtl (vv) <= s * (1 + 1e-7L)) ? 1 : 0); putD (O, (double) e); } };
   // oracle: polar decomposition reconstructs J; residual scaled by the squared condition number
   OP("o.c09.polard") { Jones<double> j = rdJ(A); CD d; Quaternion<double,H> h; Quaternion<double,U> u; polar (d,h,u,j);
     bool finite = fin(d.real()) && fin(d.imag()) && fin(h.s0) && fin(h.s1) && fin(h.s2) && fin(h.s3) && fin(u.s0) && fin(u.s1) && fin(u.s2) && fin(u.s3);
@@ -128,6 +140,11 @@ int main ()
   OP("jac.real") { unsigned n=A.nat();
     switch (n) { case 2: jacobi_real<2>(A,O,false); break; case 3: jacobi_real<3>(A,O,false); break; case 4: jacobi_real<4>(A,O,false); break;
       case 5: jacobi_real<5>(A,O,false); break; case 6: jacobi_real<6>(A,O,false); break; case 7: jacobi_real<7>(A,O,false); break; case 8: jacobi_real<8>(A,O,false); break;
+      default: throw ProtocolError ("n"); } };
+
+  OP("jac.complex") { unsigned n=A.nat();
+    switch (n) { case 2: jacobi_complex<2>(A,O,false); break; case 3: jacobi_complex<3>(A,O,false); break; case 4: jacobi_complex<4>(A,O,false); break;
+      case 5: jacobi_complex<5>(A,O,false); break; case 6: jacobi_complex<6>(A,O,false); break; case 8: jacobi_complex<8>(A,O,false); break;
       default: throw ProtocolError ("n"); } };
 
   return run_stream (ops);
